@@ -238,4 +238,81 @@ example : ∃ ls, build exPrm exSAPol Ex.smGS.model (skylineBuilt idPerm) Ex.A4c
       Ex.A4c Ex.A4c_wf Ex.A4c_sq Ex.A4c_nodup Ex.A4c_spd ls hb hinj (levelMatrices_true ls)
     exact ⟨ls, rfl, B, h1, h2⟩
 
+/-! ## `over_interp ≠ 1`: the contraction clause is FALSE (known finding K02)
+
+`coarsening::aggregation` rescales the Galerkin operator by `1/over_interp` (default `over_interp = 1.5` for scalar, `2`
+for block value types).  On two levels the exact coarse solve then over-corrects by the factor `over_interp ≤ 2`, which is
+still non-expansive; on deeper hierarchies the inexact coarse solve (the recursive cycle) is over-corrected beyond `2` and
+the level above amplifies.  Concrete witness, evaluated by the kernel on the MODEL of the constructor and of `apply` (the
+implementation shows the same on the same input — `corpus/C02/h_cycle_K02.ops`, `notes/repro_c02_over_interp.cpp`):
+1D Laplacian with 10 unknowns, plain aggregation (`eps_strong = 0`), `over_interp = 1.5` (the value the code uses is
+`1/1.5f = 11184811/2^24`), `coarse_enough = 1`: levels `10 → 4 → 2 → 1`, V-cycle, one damped-Jacobi sweep `ω = 1/4`:
+for the constant vector `e`, `‖(1 − B A) e‖²_A = 3.3667… > 2 = ‖e‖²_A`. -/
+namespace Cx
+
+def A : CRS ℚ := ⟨10, #[[(0,2),(1,-1)], [(0,-1),(1,2),(2,-1)], [(1,-1),(2,2),(3,-1)], [(2,-1),(3,2),(4,-1)],
+  [(3,-1),(4,2),(5,-1)], [(4,-1),(5,2),(6,-1)], [(5,-1),(6,2),(7,-1)], [(6,-1),(7,2),(8,-1)], [(7,-1),(8,2),(9,-1)],
+  [(8,-1),(9,2)]]⟩
+def pol : Policy ℚ :=
+  aggregationPolicy (fun x => x) { epsSq := 0, blockSize := 1, minAggregate := 0 } 1 (11184811 / 16777216)
+def prm : Params :=
+  { coarse_enough := 1, direct_coarse := true, max_levels := 10, npre := 1, npost := 1, ncycle := 1, pre_cycles := 1,
+    allow_rebuild := false }
+def sm : RealSmoother ℚ := .dampedJacobi (1 / 4)
+def ones : Vec ℚ := Array.replicate 10 1
+def dot (u v : Vec ℚ) : ℚ := (List.range 10).foldl (fun s i => s + u.getD i 0 * v.getD i 0) 0
+/-- `⟨u, A u⟩` with the model's `spmv` -/
+def energy (u : Vec ℚ) : ℚ := dot u (spmv 1 A u 0 (vclear 10))
+/-- `e − B (A e)` for `e = ones`, with the model's `apply` -/
+def Ee (ls : List (Level ℚ sm.State)) : Vec ℚ :=
+  vlin 1 ones (-1) (apply prm sm.model Ex.direct ls (freshScratch ls) (spmv 1 A ones 0 (vclear 10))).1
+
+end Cx
+
+/-- kernel evaluation of the model: four levels, and one application of the error operator to the constant vector
+INCREASES the energy norm -/
+def Cx.check : Bool :=
+  match build Cx.prm Cx.pol Cx.sm.model Ex.directOk Cx.A with
+  | .ok ls => decide (ls.map Level.rows = [10, 4, 2, 1]) && decide (Cx.energy Cx.ones < Cx.energy (Cx.Ee ls)) &&
+      decide ((apply Cx.prm Cx.sm.model Ex.direct ls (freshScratch ls) (spmv 1 Cx.A Cx.ones 0 (vclear 10))).1.size = 10)
+  | .error _ => false
+
+theorem over_interp_energy_grows : Cx.check = true := by decide +kernel
+
+theorem Cx.dot_eq (u v : Vec ℚ) : vecOf 10 u ⬝ᵥ vecOf 10 v = Cx.dot u v := by
+  simp [dotProduct, Fin.sum_univ_succ, vecOf_apply, Cx.dot, List.range_succ]
+  ring
+
+/-- **the contraction clause of C02 fails for plain aggregation with its default `over_interp`**: on the hierarchy the
+model constructor builds for `Cx.A`, EVERY matrix `B` that represents `Amg.apply` violates `‖(1 − B A) e‖_A < ‖e‖_A`. -/
+theorem over_interp_not_contracting :
+    ∃ ls, build Cx.prm Cx.pol Cx.sm.model Ex.directOk Cx.A = .ok ls ∧ ls.length = 4 ∧
+      ∀ B : Matrix (Fin 10) (Fin 10) ℚ,
+        (∀ f : Vec ℚ, f.size = 10 →
+          vecOf 10 (apply Cx.prm Cx.sm.model Ex.direct ls (freshScratch ls) f).1 = B *ᵥ vecOf 10 f) →
+        ¬ Contr (Bridge.matOf Cx.A 10 10) (1 - B * Bridge.matOf Cx.A 10 10) := by
+  have hk := over_interp_energy_grows
+  unfold Cx.check at hk
+  cases hb : build Cx.prm Cx.pol Cx.sm.model Ex.directOk Cx.A with
+  | error e => rw [hb] at hk; cases hk
+  | ok ls =>
+    rw [hb] at hk
+    simp only [Bool.and_eq_true, decide_eq_true_eq] at hk
+    obtain ⟨⟨hrows, hgrow⟩, hx⟩ := hk
+    refine ⟨ls, rfl, by simpa using congrArg List.length hrows, fun B hB hC => ?_⟩
+    have hcols : ColsLt Cx.A 10 := colsLt_of_wf' (A := Cx.A) (by decide) rfl
+    have hAe : ∀ u : Vec ℚ, Bridge.matOf Cx.A 10 10 *ᵥ vecOf 10 u = vecOf 10 (spmv 1 Cx.A u 0 (vclear 10)) :=
+      fun u => (vecOf_spmv0 Cx.A (n := 10) rfl hcols u _).symm
+    have hne : vecOf 10 Cx.ones ≠ 0 := by
+      intro h; have := congrFun h 0; simp [vecOf_apply, Cx.ones] at this
+    have hlt := hC (vecOf 10 Cx.ones) hne
+    have hE : (1 - B * Bridge.matOf Cx.A 10 10) *ᵥ vecOf 10 Cx.ones = vecOf 10 (Cx.Ee ls) := by
+      rw [Matrix.sub_mulVec, Matrix.one_mulVec, ← Matrix.mulVec_mulVec, hAe, ← hB _ (by simp [spmv]; rfl), Cx.Ee,
+        vecOf_vlin 1 (-1) _ _ (by simp [Cx.ones]) hx]
+      simp [sub_eq_add_neg]
+    rw [hE] at hlt
+    unfold en at hlt
+    rw [hAe, hAe, Cx.dot_eq, Cx.dot_eq] at hlt
+    exact absurd hlt (not_lt.mpr (le_of_lt hgrow))
+
 end Amgcl.C02d
